@@ -4,6 +4,7 @@ import (
 	"context"
 	"math/big"
 	"reflect"
+	"sort"
 	"strconv"
 	"time"
 	"unicode/utf8"
@@ -301,7 +302,11 @@ func (api *API) mapEncodeMap(ctx context.Context, value reflect.Value, ts TypeSe
 		}
 	}
 
-	m := orderedmap.New()
+	type kvPair struct {
+		key   string
+		value any
+	}
+	pairs := make([]kvPair, 0, value.Len())
 	iter := value.MapRange()
 	for i := 0; iter.Next(); i++ {
 		key := iter.Key()
@@ -310,7 +315,17 @@ func (api *API) mapEncodeMap(ctx context.Context, value reflect.Value, ts TypeSe
 		if err != nil {
 			return nil, ierrors.WithStack(err)
 		}
-		m.Set(k, v)
+		pairs = append(pairs, kvPair{key: k, value: v})
+	}
+
+	// order the entries by their encoded key, so that the output does not depend on Go's map iteration order.
+	sort.Slice(pairs, func(i, j int) bool {
+		return pairs[i].key < pairs[j].key
+	})
+
+	m := orderedmap.New()
+	for _, pair := range pairs {
+		m.Set(pair.key, pair.value)
 	}
 
 	return m, nil
